@@ -1,7 +1,7 @@
 """Rule groups about the status record and callbacks (C04; parts shared with C02, C07, C08, C18, C20)."""
 import ast
 
-from ..model import dotted, src, calls_in, AnalysisError
+from ..model import dotted, src, calls_in, kw, AnalysisError
 from ..common import (fpaths, any_guard, status_key, const_str, same_expr, peel, actual, fxp_names_in, effective_owners, store_status_key)
 from .. import anchors as A
 
@@ -27,7 +27,8 @@ def handler_roles(ck, rule):
     found = {"overflow": 0, "underflow": 0}
     for pf in pfs:
         for st in pf.stores:
-            sk = status_key(st.target)
+            from ..common import store_status_key as _ssk
+            sk = _ssk(st) or status_key(st.target)          # the substituted key: status[flag] inside a helper called with a literal name
             if not sk or sk[0] != "self" or sk[1] not in ("overflow", "underflow"):
                 continue
             flag = sk[1]
@@ -151,7 +152,32 @@ def callback_names(ck, rule):
             if isinstance(c.func, ast.Attribute) and c.func.attr == run.name and c.args:
                 nm = const_str(c.args[0])
                 if nm is None:
-                    ck.unsure(rule, f, "callback name is a literal", c, src(c))
+                    # inside a helper new with respect to the pinned tree: the name is built from a parameter that every call site binds to a literal
+                    from ..pinned import PINNED_FUNCS as _PF
+                    from ..paths import subst as _subst
+                    done_ = False
+                    if f.qualname not in _PF:
+                        ps_ = [p_ for p_ in f.params if p_ != "self"]
+                        used = [p_ for p_ in ps_ if any(isinstance(x, ast.Name) and x.id == p_ for x in ast.walk(c.args[0]))]
+                        if len(used) == 1:
+                            pi = ps_.index(used[0])
+                            lits = []
+                            for g in prog.all_funcs():
+                                for c2 in calls_in(g.node):
+                                    n2 = c2.func.attr if isinstance(c2.func, ast.Attribute) else (c2.func.id if isinstance(c2.func, ast.Name) else None)
+                                    if n2 == f.name:
+                                        a = kw(c2, used[0], pi)
+                                        lits.append((g, const_str(a) if a is not None else None))
+                            if lits and all(l_ is not None for _, l_ in lits):
+                                done_ = True
+                                for g, l_ in lits:
+                                    folded = const_str(_subst(c.args[0], {used[0]: ast.Constant(value=l_)}))
+                                    if folded is None:
+                                        done_ = False
+                                        break
+                                    names.setdefault(folded, []).append(g)
+                    if not done_:
+                        ck.unsure(rule, f, "callback name is a literal", c, src(c))
                 else:
                     names.setdefault(nm, []).append(f)
                 ck.saw(f, calls=1)
@@ -232,6 +258,30 @@ def sticky_and_ownership(ck, rule, owners=None):
                     if inreset:
                         continue
                     if key is None:
+                        # a key that is a parameter of a helper new with respect to the pinned tree, bound to a literal at every call site:
+                        # each caller writes that literal flag (ownership is decided for the caller)
+                        sub_ = t.slice
+                        from ..pinned import PINNED_FUNCS as _PF
+                        if isinstance(sub_, ast.Name) and sub_.id in f.params and f.qualname not in _PF and isinstance(val, ast.Constant) and val.value is True:
+                            pi = [p_ for p_ in f.params if p_ != "self"].index(sub_.id) if sub_.id in [p_ for p_ in f.params if p_ != "self"] else None
+                            sites = []
+                            for g in prog.all_funcs():
+                                for c in calls_in(g.node):
+                                    nm = c.func.attr if isinstance(c.func, ast.Attribute) else (c.func.id if isinstance(c.func, ast.Name) else None)
+                                    if nm == f.name:
+                                        a = kw(c, sub_.id, pi)
+                                        sites.append((g, const_str(a) if a is not None else None, c))
+                            if sites and all(k_ is not None for _, k_, _ in sites):
+                                okall = True
+                                for g, k_, c in sites:
+                                    if k_ in allowed and g.qualname not in allowed[k_] and not (effective_owners(prog, g) <= allowed[k_]):
+                                        okall = False
+                                        ck.bad(rule, g, "status['%s'] is written only by %s" % (k_, sorted(x.split('.')[-1] for x in allowed[k_])),
+                                               "%s raises status['%s'] through %s" % (g.qualname, k_, f.name), c,
+                                               "a flag raised outside its owner breaks 'iff': it no longer reports what happened in a write")
+                                if okall:
+                                    continue
+                                continue
                         # computed key: may be any flag, so the writer must own every flag
                         ck.bad(rule, f, "status flags are written under their literal names by their owners", "%s writes %s (computed key)" % (f.qualname, src(t)), node,
                                "a computed key can raise overflow/underflow outside the overflow handler: the flag no longer reports what happened in a write")
@@ -364,9 +414,10 @@ def inaccuracy_guard(ck, rule):
         if pf.end == "raise":
             continue
         vstores = [st for st in pf.stores if st.path == "self.val"]
-        istores = [st for st in pf.stores if status_key(st.target) == ("self", "inaccuracy")]
-        cbs = [(const_str(ce.raw.args[0]) if ce.raw.args else None, ce) for ce in pf.calls
-               if prog.resolve_call(f, ce.raw) == run.qualname]
+        istores = [st for st in pf.stores if (store_status_key(st) or status_key(st.target)) == ("self", "inaccuracy")]
+        # the substituted name: 'on_status_' + flag inside a helper called with a literal flag folds to the hook's name
+        cbs = [((const_str(ce.call.args[0]) or const_str(ce.raw.args[0])) if ce.raw.args else None, ce) for ce in pf.calls
+               if prog.resolve_call(ce.ctx or f, ce.raw) == run.qualname]
         vc = [c for n, c in cbs if n == "on_value_change"]
         if len(vc) != 1:
             bad("one value-change notification per write", "%d on_value_change calls on a normal path" % len(vc), f.node,
